@@ -80,7 +80,7 @@ def parseFmt : String → Option Fmt
   | "bin" => some .bin | "json" => some .json | _ => none
 def parseKK : String → Option KeyKind
   | "vk" => some .vk | "u64" => some .u64 | "i64" => some .i64 | "str" => some .str
-  | "bytes" => some .bytes | "int" => some .int | "uint" => some .uint | "sk" => some .sk | _ => none
+  | "bytes" => some .bytes | "int" => some .int | "uint" => some .uint | "sk" => some .sk | "skc" => some .skc | _ => none
 def parseVK : String → Option ValKind
   | "u64" => some .u64 | "bytes" => some .bytes | "str" => some .str
   | "ptr" => some .ptr | "iface" => some .iface | "long" => some .long | _ => none
@@ -139,6 +139,10 @@ partial def step (s : St) (line : String) : St × String :=
       | some m, some j =>
           let seen := m.toList.take (j + 1)
           (s, (if m.toList.length > j then "cberr" else "ok") ++ " [" ++ showList seen ++ "]")
+      | _, _ => (s, "bad-slot")
+  | ["iterdone", slot, j] =>
+      match nat slot >>= (s.trees[·]?), nat j with
+      | some m, some j => (s, "[" ++ showList (m.toList.take j) ++ "]")
       | _, _ => (s, "bad-slot")
   | ["getnil", slot, k] =>
       match nat slot >>= (s.trees[·]?), nat k with
